@@ -581,6 +581,113 @@ fn http_engine(rep: &Report, seed: u64, tier: Tier) {
             }
         }
     }
+    // E6: read_at (the single-shot path used for the archive header) under cuts: it
+    // restarts the whole range on failure; the result must be exactly the bytes or an
+    // error, success iff the failures fit the budget, every request the original range.
+    {
+        let mut jobs: Vec<(usize, Vec<Act>, u32)> = Vec::new();
+        for len in [1usize, 7, 14, 40] {
+            for k in 0..len {
+                for budget in 0..=2u32 {
+                    jobs.push((len, vec![Act::Cut(k)], budget));
+                    jobs.push((len, vec![Act::Cut(k), Act::Cut(len / 2)], budget));
+                    jobs.push((len, vec![Act::ShortBody(1 + k % 3)], budget));
+                }
+            }
+        }
+        let res = par_map(jobs.len(), crate::util::ncpu(), |j| {
+            let (len, plan, budget) = jobs[j].clone();
+            let file = Arc::new(file_bytes(120));
+            let plan2 = plan.clone();
+            let server = Server::start(
+                file.clone(),
+                Arc::new(move |req, f| match plan2.get(req.n as usize).cloned().unwrap_or(Act::Full) {
+                    Act::Full => Action::Full,
+                    Act::Frag(v) => Action::Fragmented(v),
+                    Act::Cut(k) => Action::CutAfter(k),
+                    Act::ShortBody(s) => {
+                        let (a, b) = req.range.unwrap_or((0, 0));
+                        let l = (b + 1 - a) as usize;
+                        Action::Custom { status: 206, declared_len: None, body: f[a as usize..a as usize + l.saturating_sub(s)].to_vec() }
+                    }
+                }),
+            );
+            let url = server.url();
+            let rt = crate::exec::rt_current();
+            let r = crate::util::catch(|| {
+                rt.block_on(async {
+                    let mut reader = crate::lib_drv::http_reader(&url, budget)?;
+                    let r = tokio::time::timeout(std::time::Duration::from_secs(20), reader.read_at(30, len)).await;
+                    Ok::<_, String>(match r {
+                        Err(_) => Err("timeout".to_string()),
+                        Ok(Ok(b)) => Ok(b.to_vec()),
+                        Ok(Err(e)) => Err(format!("{:?}", e)),
+                    })
+                })
+            })
+            .and_then(|x| x);
+            let reqs: Vec<(u64, u64)> = server.take_log().iter().filter_map(|x| x.req.range).collect();
+            // model
+            let mut attempts = 0usize;
+            let mut budget_left = budget;
+            let mut ok = false;
+            loop {
+                let act = plan.get(attempts).cloned().unwrap_or(Act::Full);
+                attempts += 1;
+                match act {
+                    Act::Cut(k) if k < len => {
+                        if budget_left == 0 {
+                            break;
+                        }
+                        budget_left -= 1;
+                    }
+                    Act::ShortBody(s) if s > 0 => break, // graceful short body: UnexpectedEnd, no retry
+                    _ => {
+                        ok = true;
+                        break;
+                    }
+                }
+            }
+            let verdict = match r {
+                Err(e) => Err(e),
+                Ok(Err(e)) if e == "timeout" => Err("read_at did not finish within 20 s".to_string()),
+                Ok(Ok(b)) => {
+                    if b[..] != file[30..30 + len] {
+                        Err(format!("read_at returned {} wrong/short bytes", b.len()))
+                    } else if !ok {
+                        Err("read_at succeeded although the failures exceed the retry budget / the body ended early".to_string())
+                    } else {
+                        Ok(())
+                    }
+                }
+                Ok(Err(_)) => {
+                    if ok { Err(format!("read_at failed although the failures fit the retry budget {}", budget)) } else { Ok(()) }
+                }
+            };
+            let verdict = verdict.and_then(|_| {
+                if reqs.len() != attempts || reqs.iter().any(|r| *r != (30, 30 + len as u64 - 1)) {
+                    Err(format!("read_at sent requests {:?}, expected {} x (30, {})", reqs, attempts, 30 + len - 1))
+                } else {
+                    Ok(())
+                }
+            });
+            (j, verdict)
+        });
+        for (j, v) in res {
+            rep.eval();
+            match v {
+                Ok(()) => {
+                    rep.count("http.read_at_cases", 1);
+                    rep.nontrivial(format!("read_at:{:?}", jobs[j]));
+                }
+                Err(why) => rep.violation(
+                    &format!("c08/http-read_at/{}", why.chars().filter(|c| !c.is_ascii_digit()).take(50).collect::<String>()),
+                    json!({"why": why, "len": jobs[j].0, "plan": jobs[j].1.iter().map(|a| a.json()).collect::<Vec<_>>(), "budget": jobs[j].2}),
+                    json!({"engine": "read_at", "seed": seed}),
+                ),
+            }
+        }
+    }
     // E5: connection refused for every attempt: must be an error, for every budget.
     for budget in 0..=3u32 {
         let port = {
